@@ -33,8 +33,8 @@ type session struct {
 	// SYN, a blocking dial): it ends only when its context does
 	pending bool
 	refuse  bool
-	msgs   string // u update, s sync, n nil-response
-	end    string // err, eof, silence
+	msgs    string // u update, s sync, n nil-response
+	end     string // err, eof, silence
 }
 
 func (s session) String() string {
